@@ -1258,9 +1258,11 @@ func removeRedundantPrflxFromSet(set []Candidate, cand Candidate) ([]Candidate, 
 func (a *Agent) replaceRemoteInPairs(oldRemote, newRemote Candidate) {
 	for i, pair := range a.checklist {
 		if pair.Remote == oldRemote {
-			oldPriority := pair.priority()
+			// The pair priority does not change with the replacement: keep computing it
+			// from the priority of the candidate the pair was formed with.
+			oldRemotePriority := pair.remotePriority()
 			replacement := replacePairRemote(pair, newRemote)
-			replacement.setPriorityOverride(oldPriority)
+			replacement.setRemotePriorityOverride(oldRemotePriority)
 			a.checklist[i] = replacement
 			a.pairsByID[replacement.id] = replacement
 			a.retargetKnownPairHolders(pair, replacement)
